@@ -64,7 +64,7 @@ def simplify (inp out : List IPt) (closed : Bool) (eps2 : Rat) : String :=
     let trs := if closed then triples out
       else (out.zip ((out.drop 1).zip (out.drop 2)))
     let lim := eps2 * (1 - 1 / 1000000000)
-    match trs.find? (fun t => decide (perpDist2 t.2.1 t.1 t.2.2 < lim) || (eps2 == 0 && perpDist2 t.2.1 t.1 t.2.2 == 0 && false)) with
+    match trs.find? (fun t => decide (perpDist2 t.2.1 t.1 t.2.2 < lim) || (eps2 == 0 && perpDist2 t.2.1 t.1 t.2.2 == 0)) with
     | some (a, b, c) => s!"bad retained-vertex-within-epsilon ({a.x},{a.y}) ({b.x},{b.y}) ({c.x},{c.y})"
     | none =>
       if eps2 == 0 && closed && area2 out != area2 inp then s!"bad area changed at epsilon 0: {area2 inp} -> {area2 out}"
